@@ -1901,6 +1901,32 @@ std::string Generator::GeneratorImpl::generateInitialisationCode(const AnalyserV
            + mProfile->commandSeparatorString() + "\n";
 }
 
+AnalyserVariablePtr Generator::GeneratorImpl::initialisingExternalVariable(const AnalyserVariablePtr &variable) const
+{
+    // Follow the chain of variables used to initialise the given variable
+    // (e.g., x is initialised using k, which is itself initialised using a) and
+    // return the external variable, if any, that chain ends with.
+
+    auto res = variable;
+
+    for (size_t i = 0; i <= mModel->variableCount(); ++i) {
+        auto initialisingVariable = res->initialisingVariable();
+
+        if ((initialisingVariable == nullptr)
+            || isCellMLReal(initialisingVariable->initialValue())) {
+            return nullptr;
+        }
+
+        res = analyserVariable(owningComponent(initialisingVariable)->variable(initialisingVariable->initialValue()));
+
+        if (res->type() == AnalyserVariable::Type::EXTERNAL) {
+            return res;
+        }
+    }
+
+    return nullptr;
+}
+
 std::string Generator::GeneratorImpl::generateVariableInitialisationCode(const AnalyserVariablePtr &variable,
                                                                          std::vector<AnalyserVariablePtr> &handledVariables) const
 {
@@ -2092,11 +2118,24 @@ void Generator::GeneratorImpl::addImplementationInitialiseVariablesMethodCode(st
         //       initialised after that other variable, wherever it comes in our
         //       list of variables.
 
+        // Note: a variable that is initialised, directly or not, using an
+        //       external variable can only be initialised once that external
+        //       variable has been initialised.
+
         std::string methodBody;
         std::vector<AnalyserVariablePtr> handledVariables;
+        std::vector<AnalyserVariablePtr> externallyInitialisedVariables;
+        std::vector<AnalyserVariablePtr> initialisingExternalVariables;
 
         for (const auto &variable : mModel->variables()) {
-            methodBody += generateVariableInitialisationCode(variable, handledVariables);
+            auto externalVariable = initialisingExternalVariable(variable);
+
+            if (externalVariable != nullptr) {
+                externallyInitialisedVariables.push_back(variable);
+                initialisingExternalVariables.push_back(externalVariable);
+            } else {
+                methodBody += generateVariableInitialisationCode(variable, handledVariables);
+            }
         }
 
         // Initialise our true constants.
@@ -2112,22 +2151,12 @@ void Generator::GeneratorImpl::addImplementationInitialiseVariablesMethodCode(st
         // variable has been initialised).
 
         std::string externallyInitialisedStatesCode;
-        std::vector<AnalyserVariablePtr> initialisingExternalVariables;
 
         for (const auto &state : mModel->states()) {
-            auto initialisingVariable = state->initialisingVariable();
-            AnalyserVariablePtr initialisingExternalVariable;
+            auto externalVariable = initialisingExternalVariable(state);
 
-            if (!isCellMLReal(initialisingVariable->initialValue())) {
-                auto initialValueVariable = analyserVariable(owningComponent(initialisingVariable)->variable(initialisingVariable->initialValue()));
-
-                if (initialValueVariable->type() == AnalyserVariable::Type::EXTERNAL) {
-                    initialisingExternalVariable = initialValueVariable;
-                }
-            }
-
-            if (initialisingExternalVariable != nullptr) {
-                initialisingExternalVariables.push_back(initialisingExternalVariable);
+            if (externalVariable != nullptr) {
+                initialisingExternalVariables.push_back(externalVariable);
 
                 externallyInitialisedStatesCode += generateInitialisationCode(state);
             } else {
@@ -2155,11 +2184,16 @@ void Generator::GeneratorImpl::addImplementationInitialiseVariablesMethodCode(st
                          [](const AnalyserEquationPtr &equation) { return equation->type() == AnalyserEquation::Type::EXTERNAL; });
 
             // Start with the external variables that are used to initialise
-            // some states, then initialise those states, and finish with the
-            // other external variables (which may depend on those states).
+            // some variables or states, then initialise those variables and
+            // states, and finish with the other external variables (which may
+            // depend on those variables or states).
 
-            for (const auto &initialisingExternalVariable : initialisingExternalVariables) {
-                methodBody += generateEquationCode(initialisingExternalVariable->equation(0), remainingExternalEquations);
+            for (const auto &externalVariable : initialisingExternalVariables) {
+                methodBody += generateEquationCode(externalVariable->equation(0), remainingExternalEquations);
+            }
+
+            for (const auto &variable : externallyInitialisedVariables) {
+                methodBody += generateVariableInitialisationCode(variable, handledVariables);
             }
 
             methodBody += externallyInitialisedStatesCode;
